@@ -39,6 +39,57 @@ def run(chk, repo):
     election(chk, repo)
     bitmap(chk, repo)
     teardown(chk, repo)
+    errno_classes(chk, repo)
+
+
+OS_SUBCLASSES = {"FileNotFoundError", "FileExistsError", "BlockingIOError",
+                 "PermissionError", "InterruptedError", "TimeoutError",
+                 "IsADirectoryError", "NotADirectoryError",
+                 "ProcessLookupError", "ChildProcessError",
+                 "ConnectionError", "BrokenPipeError"}
+
+
+def errno_classes(chk, repo):
+    """R23.5: the joiner of a running master waits for the installer's
+    program table with `except FileNotFoundError` around obj_get().  Python
+    picks the errno-specific subclass only when OSError itself is
+    instantiated: the syscall wrapper has to raise OSError(errno, ...), a
+    subclass of its own would fall through every such handler"""
+    chk.doc("R23.5", "bpf() failures arrive as errno-specific OSErrors")
+    bm = repo.module("ebpfcat.bpf")
+    prims = {st.name for st in bm.tree.body if isinstance(st, FUNC)}
+    users = []
+    for m in repo.production_modules():
+        for t in [x for x in ast.walk(m.tree) if isinstance(x, ast.Try)]:
+            hs = [h for h in t.handlers if h.type is not None and any(
+                (dotted(x) or "").split(".")[-1] in OS_SUBCLASSES
+                for x in ([h.type] if not isinstance(h.type, ast.Tuple)
+                          else h.type.elts))]
+            if not hs:
+                continue
+            called = {(dotted(c.func) or "").split(".")[-1]
+                      for b in t.body for c in ast.walk(b)
+                      if isinstance(c, ast.Call)}
+            if called & prims:
+                users.append((t, hs[0], sorted(called & prims)))
+    chk.floor("R23.5", "errno-specific handlers around bpf primitives",
+              len(users), 1)
+    f = repo.func("ebpfcat.bpf.bpf")
+    chk.analysed("ebpfcat.bpf.bpf")
+    raises = [r for r in walk_no_nested(f) if isinstance(r, ast.Raise)
+              and r.exc is not None]
+    need(raises, "ebpfcat.bpf.bpf: no raise found")
+    bad = [r for r in raises if not (isinstance(r.exc, ast.Call) and dotted(
+        r.exc.func) == "OSError" and len(r.exc.args) >= 2 and find(
+            "get_errno()", r.exc.args[0]))]
+    chk.ob("R23.5", "ebpfcat.bpf.bpf", "a failing bpf() raises OSError(errno,"
+           " ...) itself", not bad, bad[0] if bad else f,
+           (f"raises `{unparse(bad[0].exc)[:50]}`: "
+            f"`except {unparse(users[0][1].type)}` around "
+            f"{users[0][2]} in {repo.where(users[0][0])} no longer sees the "
+            f"missing object; the joiner of a starting master fails instead "
+            f"of waiting for the program table") if bad else
+           f"{len(users)} handler(s) rely on the errno-specific subclass")
 
 
 def election(chk, repo):
